@@ -12,13 +12,19 @@ META = {
     'explanation': 'E-GNF truth table of LocalDate::isLeapYear and of the leap test in transformer._days_in_month over the four '
                    'consistent valuations of {4|y, 100|y, 400|y}; table checks of sDaysInMonth / DAYS_IN_MONTH / sDayOfWeek '
                    '(month-to-month recurrence of the weekday offsets and the epoch-day anchor by constant propagation); '
-                   'decision lists of incrementOneDay / decrementOneDay with their wrap constants.',
+                   'decision lists of incrementOneDay / decrementOneDay with their wrap constants; the closed arithmetic forms of '
+                   'isLeapYear, isYearValid, toEpochDays and extractYearMonthDay are extracted from the source and given their integer '
+                   'meaning on every year / every day of 1873..2127 (quick tier: century and boundary years, month ends) against the '
+                   'checker\'s own proleptic Gregorian calendar; LocalTime decomposition / recomposition / isError table; the '
+                   'floor-division idiom of the two forEpochSeconds.',
     'decided': 'leap-year predicate is the Gregorian one in C++ and Python; month lengths are the calendar\'s in both; the weekday '
                'offset table is consistent with the month lengths around the March-based year and anchored at 2000-01-01 = Saturday; '
                'one-day increment/decrement wrap at day > daysInMonth / day == 0 with the right month/year carries and are mutually '
-               'inverse on the decision level',
-    'not_decided': 'the Julian-day formulas (toEpochDays, extractYearMonthDay, the closed form of dayOfWeek) as integer identities '
-                   'over all 93,136 days; validity of fields for all 2^32 epoch seconds',
+               'inverse on the decision level; toEpochDays and extractYearMonthDay equal the Gregorian day count and its inverse on '
+               'every day of the domain (thorough tier: all 93,136 days); isYearValid accepts exactly 1873..2127; seconds of the day '
+               'split and recombine consistently and LocalTime::isError accepts exactly 00:00:00..23:59:59 and 24:00:00',
+    'not_decided': 'the composition of the pieces for all 2^32 epoch seconds (each piece - floor quotient, day formulas, seconds-of-day '
+                   'split - is decided on its own domain); the closed form of dayOfWeek beyond its table and anchor',
     'assumptions': ['clang 14 parser', 'CPython ast'],
 }
 
@@ -202,6 +208,30 @@ def julian_rule(R, lib, ob):
         if got != (dt.year, dt.month, dt.day):
             bad.append('%d -> %s (expected %s)' % (e, got, dt.isoformat()))
     ob('R3', c, g.loc, not bad, 'the inverse formula is wrong for %d of the %d epoch days evaluated, e.g. %s' % (len(bad), len(dates), '; '.join(bad[:3])))
+    # -- dayOfWeek and daysInMonth: constant propagation of every date / every (year, month) through the real bodies
+    import calendar
+    ev = CEval(lib)
+    dw = lib.fn('ace_time::LocalDate::dayOfWeek')
+    bad = []
+    try:
+        for dt in dates:
+            v = ev.call(dw, Obj({'mYearTiny': dt.year - 2000, 'mMonth': dt.month, 'mDay': dt.day}), ())
+            if v != dt.isoweekday():
+                bad.append('%s -> %r (expected %d)' % (dt.isoformat(), v, dt.isoweekday()))
+    except Exception as e:
+        raise AnalysisError('%s: dayOfWeek() cannot be folded (%s)' % (dw.loc, e))
+    ob('R3', 'LocalDate::dayOfWeek', dw.loc, not bad, 'the weekday is wrong for %d of the %d dates evaluated, e.g. %s' % (len(bad), len(dates), '; '.join(bad[:3])))
+    dm = lib.fn('ace_time::LocalDate::daysInMonth')
+    bad = []
+    try:
+        for y in range(1873, 2128):
+            for mth in range(1, 13):
+                v = ev.call(dm, None, (y, mth))
+                if v != calendar.monthrange(y, mth)[1]:
+                    bad.append('%04d-%02d -> %r' % (y, mth, v))
+    except Exception as e:
+        raise AnalysisError('%s: daysInMonth() cannot be folded (%s)' % (dm.loc, e))
+    ob('R3', 'LocalDate::daysInMonth', dm.loc, not bad, 'the month length is wrong for %d of the 3060 months of 1873..2127, e.g. %s' % (len(bad), '; '.join(bad[:3])))
 
 
 def year_range_rule(R, lib, ob):
@@ -386,6 +416,10 @@ def onedays(R, lib, ob):
 
 
 SELFTEST = [
+    dict(id='weekday-400-term-folded', file='src/ace_time/LocalDate.h', find='      int16_t d = y + y/4 - y/100 + y/400 + sDayOfWeek[mMonth-1] + mDay;',
+         replace='      int16_t d = y + y/4 - y/100 + 5 + sDayOfWeek[mMonth-1] + mDay;', rule='R3', construct='dayOfWeek'),
+    dict(id='weekday-negative-branch-spelling-silent', file='src/ace_time/LocalDate.h', find='      return (d < -1) ? (d + 1) % 7 + 8 : (d + 1) % 7 + 1;',
+         replace='      return (d + 1 < 0) ? (d + 1) % 7 + 8 : (d + 1) % 7 + 1;', expect='silent'),
     dict(id='year-2127-invalid', file='src/ace_time/LocalDate.h', find='          && year <= kEpochYear + kMaxYearTiny;', replace='          && year < kEpochYear + kMaxYearTiny;', rule='R7'),
     dict(id='year-1872-valid', file='src/ace_time/LocalDate.h', find='      return year >= kEpochYear + kMinYearTiny', replace='      return year >= kEpochYear + kMinYearTiny - 1', rule='R7'),
     dict(id='century-term-without-month-shift', file='src/ace_time/LocalDate.h', find='          - (3 * ((yy + 4900 + mm)/100))/4', replace='          - (3 * ((yy + 4900)/100))/4', rule='R3', construct='toEpochDays'),
